@@ -257,4 +257,14 @@ theorem event_values_by_position : ∀ (ps : List Param) (ts : List Ty) (topics 
             · simp only [dataTypes, hi, Bool.false_eq_true, if_false, i1]
             · simp only [specEvent, hi, Bool.false_eq_true, if_false, i2, Option.map_some, fillFromData]
 
+/-! ### non-vacuity: concrete inputs on which the hypotheses hold (evaluated by the kernel) -/
+def isOk {α : Type} : Outcome α → Bool | .ok _ => true | _ => false
+def exFn : Entry := ⟨"function", "transfer", false, [.mk "to" "address" false "" [], .mk "amount" "uint256" false "" []]⟩
+def exEv : Entry := ⟨"event", "Transfer", false,
+  [.mk "from" "address" true "" [], .mk "to" "address" true "" [], .mk "value" "uint256" false "" []]⟩
+def word (n : Nat) : Bytes := toBE 32 n
+/-- non-vacuity: `transfer(address,uint256)` has a signature and selector; call data carrying that selector decodes -/
+example : (signature exFn == .ok "transfer(address,uint256)") = true := by decide +kernel
+-- selector / call data / event / revert witnesses force Keccak-256 in the kernel (≈10 s each): see FFS.Props.Witness
+
 end FFS.Props.C12
